@@ -118,6 +118,9 @@ def world():
         exec("@contextlib.contextmanager\ndef gcm%d():\n    yield 'in-gcm%d'\n" % (i, i), ns)
         fn = ns["gcm%d" % i]
         gcms["g%d" % i] = fn
+        # the same through a helper generator: the manager's own frame is then not the innermost of its inner stack
+        exec("def _hold%d():\n    yield 'in-gcmy%d'\n\n@contextlib.contextmanager\ndef gcmy%d():\n    yield from _hold%d()\n" % (i, i, i, i), ns)
+        gcms["y%d" % i] = ns["gcmy%d" % i]
 
         def mk(name):
             def ucg(frame, context):
@@ -127,6 +130,7 @@ def world():
                 return resolve_unwrap(T["table"][name]["unwrap"])
             return ucg
         stackscope.unwrap_context_generator.register(fn, mk("g%d" % i))
+        stackscope.unwrap_context_generator.register(ns["gcmy%d" % i], mk("y%d" % i))
     T["plain"] = Plain()
     _W.update(dict(W=W, WF=WF, T=T, gcms=gcms, stackscope=stackscope, Context=Context, Stack=Stack, PRUNE=PRUNE))
     return _W
@@ -338,7 +342,7 @@ LASTS = [None, "PRUNE", "self", "first"]
 
 
 def gen_cases(maxlen):
-    kinds_all = ["w", "g", "f"]
+    kinds_all = ["w", "g", "f", "y"]
     for L in range(1, maxlen + 1):
         for kinds in itertools.product(kinds_all, repeat=L):
             names = []
